@@ -5,7 +5,7 @@
    part of C14 is the cross-configuration comparison of six real builds
    (lib/props/C14.py); these theorems explain why it must come out equal. *)
 From Coq Require Import NArith ZArith List.
-From GV Require Import Pool.RegPool Pool.ContPool Pool.Proofs Pool.NoQuotas Ctx.Model.
+From GV Require Import Pool.RegPool Pool.ContPool Pool.Proofs Pool.NoQuotas Ctx.Model Pool.HeapModel Pool.HeapProofs.
 Import ListNotations.
 
 (* every register set a pool hands out has exactly the requested size and is all zero *)
@@ -22,6 +22,17 @@ Theorem C14_pool_refines_fresh :
   Forall2 agrees os (RegPool.run (mkValuePool size age) os).
 Proof. exact pool_refines_fresh_from_new. Qed.
 Print Assumptions C14_pool_refines_fresh.
+
+(* the same with aliasing made explicit (Pool/HeapModel.v): register sets live in one heap, the pool
+   keeps identities of released sets, the client uses handles.  For every client program and every
+   pool policy (which pooled set of the right length a get reuses, whether a release keeps the set,
+   which pooled set it evicts — regpool.go is one such policy): either the client touches a set it
+   has released (both runs stop at that operation, None) or the observations — lengths seen at
+   get, every value read — are identical with the pool and with plain allocation. *)
+Theorem C14_heap_pool_refines_fresh :
+  forall os chs, prun p0 os chs = frun f0 os.
+Proof. exact heap_pool_refines_fresh_from_new. Qed.
+Print Assumptions C14_heap_pool_refines_fresh.
 
 Theorem C14_pool_no_panic :
   forall os p, (regPoolSize <= length (slots p))%nat ->
